@@ -182,7 +182,9 @@ def canon(d):
     """Canonical comparable form of a description."""
     tag = d[0]
     if tag == 'u':
-        return ('u', uuid_width(d[1], d[2]), uuid128_be(d[1]).hex())
+        # compared as 128-bit values: UUID.from_bytes returns the first registered equal object,
+        # so the width of a parsed UUID depends on what the process has seen before
+        return ('u', uuid128_be(d[1]).hex())
     if tag in ('i', 's'):
         return (tag, d[2], d[1])
     if tag == 't':
@@ -203,7 +205,7 @@ def canon_de(de):
     t = de.type
     if t == DataElement.UUID:
         raw = de.value.uuid_bytes
-        return ('u', len(raw), le_to_128_be(raw).hex())
+        return ('u', le_to_128_be(raw).hex())
     if t == DataElement.UNSIGNED_INTEGER:
         return ('i', de.value_size, de.value)
     if t == DataElement.SIGNED_INTEGER:
@@ -713,12 +715,12 @@ def _judge_sdp(ctx, fail, multi, outcome, i, j, q, kind, exp, results, clients, 
     if r is None:
         if outcome == 'budget':
             return False
-        fail(f'sdp/{name}/no_answer/{multi}', f'{who}: never completed ({outcome}): the response did not arrive')
+        fail(f'sdp/no_answer/{multi}', f'{who}: never completed ({outcome}): the response did not arrive')
         return True
     if r[0] == 'exc':
         if kind == 'ga' and exp is None:
             return False  # unknown handle: an error is the answer
-        fail(f'sdp/{name}/exception/{r[1]}/{multi}', f'{who}: raised {r[1]}({r[2]})')
+        fail(f'sdp/exception/{r[1]}/{multi}', f'{who}: raised {r[1]}({r[2]})')
         return True
     got = r[1]
 
@@ -868,7 +870,7 @@ def _av_message(proto: str, mtu: int, m) -> dict:
     elif size[0] == 'frag':
         # needs exactly size[1] (>= 2) packets when filled
         k = max(2, size[1])
-        length = (k - 1) * frag_cap + 1 + m['seed'] % max(1, frag_cap - 4) if proto == 'avdtp' else \
+        length = (k - 1) * frag_cap + 2 + m['seed'] % max(1, frag_cap - 4) if proto == 'avdtp' else \
             (mtu - 4) + (k - 2) * frag_cap + 1 + m['seed'] % max(1, frag_cap - 1)
     elif size[0] == 'single':
         length = m['seed'] % (single_max + 1)
@@ -1135,6 +1137,10 @@ def run_avdtp_case(ctx, case) -> None:
         if ok:
             what_fault, situation = '', ''
             stream = []
+            if fault and len(per_msg_pdus[1]) < 2:
+                # the sender put the message meant to be broken into one packet: nothing to break
+                labels.add('avdtp:fault_not_applicable')
+                fault = None
             for k, pdus in enumerate(per_msg_pdus):
                 if fault and k == 1:
                     faulty, what_fault = av_apply_fault(pdus, fault, 'avdtp')
@@ -1150,17 +1156,34 @@ def run_avdtp_case(ctx, case) -> None:
                     labels.add('avdtp:fragmented_after_fault')
                 else:
                     labels.add('avdtp:single_after_fault')
-            excs = []
-            for p in stream:
-                try:
-                    assembler.on_pdu(p)
-                except Exception as e:  # noqa: BLE001 - judged by its effect on delivery
-                    excs.append(e)
-            _judge_av(fail, 'avdtp', expected, delivered, fault, what_fault, situation, excs, mtu)
+            if fault:
+                # the good messages alone must be reassembled before the fault can be judged
+                good = [p for k, pdus in enumerate(per_msg_pdus) if k != 1 for p in pdus]
+                good_excs = _feed(assembler, good)
+                good_expected = [expected[0]] + expected[2:]
+                if delivered != good_expected:
+                    _judge_av(fail, 'avdtp', good_expected, list(delivered), None, '', '', good_excs, mtu)
+                    fault = None
+                    stream = []
+                del delivered[:]
+                assembler = avdtp.MessageAssembler(on_message)
+            if stream:
+                excs = _feed(assembler, stream)
+                _judge_av(fail, 'avdtp', expected, delivered, fault, what_fault, situation, excs, mtu)
         ctx.case(('avdtp', case), nontrivial, labels,
                  sample={'avdtp': {'mtu': mtu, 'lens': [m['len'] for m in msgs], 'fault': fault}})
     finally:
         loop.shutdown()
+
+
+def _feed(assembler, pdus) -> list:
+    excs = []
+    for p in pdus:
+        try:
+            assembler.on_pdu(p)
+        except Exception as e:  # noqa: BLE001 - judged by its effect on delivery
+            excs.append(e)
+    return excs
 
 
 def _judge_av(fail, proto, expected, delivered, fault, what_fault, situation, excs, mtu) -> None:
@@ -1279,13 +1302,19 @@ def run_avctp_case(ctx, case) -> None:
         if fault:
             nontrivial = True
             labels.add('avctp:fragmented_after_fault' if len(per_msg_pdus[2]) >= 2 else 'avctp:single_after_fault')
-        excs = []
-        for p in stream:
-            try:
-                assembler.on_pdu(p)
-            except Exception as e:  # noqa: BLE001 - judged by its effect on delivery
-                excs.append(e)
-        _judge_av(fail, 'avctp', expected, delivered, fault, what_fault, situation, excs, mtu)
+        if fault:
+            good = [p for k, pdus in enumerate(per_msg_pdus) if k != 1 for p in pdus]
+            good_excs = _feed(assembler, good)
+            good_expected = [expected[0]] + expected[2:]
+            if delivered != good_expected:
+                _judge_av(fail, 'avctp', good_expected, list(delivered), None, '', '', good_excs, mtu)
+                fault = None
+                stream = []
+            del delivered[:]
+            assembler = avctp.MessageAssembler(on_message)
+        if stream:
+            excs = _feed(assembler, stream)
+            _judge_av(fail, 'avctp', expected, delivered, fault, what_fault, situation, excs, mtu)
         ctx.case(('avctp', case), nontrivial, labels,
                  sample={'avctp': {'mtu': mtu, 'lens': [m['len'] for m in msgs],
                                    'packets': [len(p) for p in per_msg_pdus], 'fault': fault}})
